@@ -153,7 +153,12 @@ PickC2 == \E a \in Inner(1), b \in Shapes(2) : Pick(D(<<SID>> \o a \o b))
 \* a field that reads to the end of the PDU must not start in front of (or inside) an object placed earlier: with three
 \* shapes the middle one is not positioned explicitly when a greedy field is around (it could jump backwards)
 Greedy(ps) == \E i \in 1..Len(ps) : ps[i].dop.k \in {"eopfield", "demfield"}
-PickC3 == \E a \in Inner(1), b \in Inner(2), c \in Shapes(3) :
+\* shapes with large value alphabets (environment data, tables, records of trouble codes) take part in compositions of two
+HeavyDop(d) == \/ d.k \in {"envdesc", "table"}
+               \/ (d.k \in {"eopfield", "dlfield", "demfield", "sfield"} /\ d.st.k = "struct" /\
+                   \E j \in 1..Len(d.st.ps) : d.st.ps[j].dop.k \in {"envdesc", "dtc"})
+Heavy(sh) == \E j \in 1..Len(sh) : HeavyDop(sh[j].dop)
+PickC3 == \E a \in {x \in Inner(1) : ~Heavy(x)}, b \in {x \in Inner(2) : ~Heavy(x)}, c \in {x \in Shapes(3) : ~Heavy(x)} :
              ~(Greedy(a \o b \o c) /\ \E i \in 1..Len(b) : b[i].bp >= 0) /\ Pick(D(<<SID>> \o a \o b \o c))
 
 \* quick: as first of two shapes only those that change the context of what follows (origin, cursor, keys, claims)
